@@ -1,8 +1,12 @@
 // Package fsimx runs the real fsim modules (fdo.download, fdo.upload, fdo.wget) inside a real
-// fdo.TO2 / fdo.TO2Server pair, optionally corrupting one announced value or one data chunk at the
-// plaintext layer (inside the tunnel, by a wrapper between the library and the receiving module),
-// and records what the receiver was told, what it received, what ended up at the destination and
-// what was reported, as NDJSON events for Fsim_Trace.tla (property C17).
+// fdo.TO2 / fdo.TO2Server pair. One case is one TO2 SESSION: a sequence of transfers (one owner module
+// each) through ONE instance of the device module, as TO2 does it. Each transfer may have one announced
+// value or one data chunk corrupted at the plaintext layer (inside the tunnel, by a wrapper between the
+// library and the receiving module); a wget transfer fetches from a local HTTP server whose way of
+// framing the response is part of the case (Content-Length, chunked, flushed in pieces, HTTP/1.0
+// close-delimited, a Content-Length that is not the length of the body, a redirect). The run records
+// what each receiver was told, what it was given, what was at the destination and in the temp directory
+// after each transfer and what was reported, as NDJSON events for Fsim_Trace.tla (property C17).
 package fsimx
 
 import (
@@ -15,12 +19,15 @@ import (
 	"fmt"
 	"io"
 	mrand "math/rand"
+	"net"
 	"net/http"
 	"net/http/httptest"
 	"net/url"
 	"os"
 	"path/filepath"
 	"sort"
+	"strconv"
+	"strings"
 	"sync"
 	"time"
 
@@ -31,24 +38,36 @@ import (
 	"verifharness/world"
 )
 
-// Case is one transfer.
-type Case struct {
-	ID     int    `json:"id"`
-	Seed   int64  `json:"seed"`
-	Module string `json:"module"` // download | upload | wget
-	Size   int    `json:"size"`
-	Chunk  int    `json:"chunk"`   // DownloadContents.ChunkSize (download only)
-	DevMTU uint16 `json:"dev_mtu"` // device receive MTU (owner -> device)
-	OwnMTU uint16 `json:"own_mtu"` // owner announced MTU (device -> owner), 0 = default
+// Xfer is one transfer of a session.
+type Xfer struct {
+	Seed  int64 `json:"seed"`
+	Size  int   `json:"size"`
+	Chunk int   `json:"chunk"` // DownloadContents.ChunkSize (download only)
 	// Corruption inside the tunnel (for wget data/len: in the HTTP body the device fetches).
-	Cor     string `json:"cor"`      // none | data | digest | len+ | len-
-	CorIdx  int    `json:"cor_idx"`  // which data message (0-based; beyond the last = last)
-	Delta   int    `json:"delta"`    // how much the length is changed
-	Must    bool   `json:"must"`     // DownloadContents.MustDownload
-	Floor   bool   `json:"floor"`    // MTU below what the module's fixed announcements need: only safety is judged
-	Expect  string `json:"expect"`   // TLC verdict for the scenario class: placed | failed (passed through)
-	Class   string `json:"class"`    // scenario class label (passed through)
-	Timeout int    `json:"timeout_ms"`
+	Cor    string `json:"cor"`     // none | data | digest | len+ | len-
+	CorIdx int    `json:"cor_idx"` // which data message (0-based)
+	Delta  int    `json:"delta"`   // how much the length is changed
+	// wget: how the HTTP server frames the response: cl | nocl | flushed | close | clsrc | redirect
+	Srv    string `json:"srv"`
+	Piece  int    `json:"piece"`  // flushed: bytes per flushed piece
+	// the announced length may never be reached (the transfer never finalizes): the session is ended
+	// Case.StallMs after this transfer began
+	MayStall bool `json:"may_stall"`
+	Expect string `json:"expect"` // TLC verdict for the scenario: placed | failed (passed through)
+	Class  string `json:"class"`  // scenario class label (passed through)
+}
+
+// Case is one TO2 session.
+type Case struct {
+	ID      int    `json:"id"`
+	Module  string `json:"module"`  // download | upload | wget
+	DevMTU  uint16 `json:"dev_mtu"` // device receive MTU (owner -> device)
+	OwnMTU  uint16 `json:"own_mtu"` // owner announced MTU (device -> owner), 0 = default
+	Must    bool   `json:"must"`    // DownloadContents.MustDownload of every owner module of the session
+	Floor   bool   `json:"floor"`   // MTU below what the module's fixed announcements need: only safety is judged
+	Timeout int    `json:"timeout_ms"` // bound of the whole TO2 (generous: reaching it is a hang)
+	StallMs int    `json:"stall_ms"`   // bound of a transfer that may stall, from its beginning
+	Xfers   []Xfer `json:"xfers"`
 }
 
 type recorder struct {
@@ -68,17 +87,19 @@ func (r *recorder) add(ev string, kv ...any) {
 	r.mu.Unlock()
 }
 
-// state shared by the wrappers of one run
+// obs is the state shared by the wrappers of one transfer.
 type obs struct {
 	rec      *recorder
-	c        Case
+	i        int // 1-based number of the transfer in its session
+	x        Xfer
+	name     string
 	src      []byte
 	srcSum   []byte
 	mu       sync.Mutex
 	rcvOff   int  // payload bytes handed to the receiving module
 	dataMsgs int  // data messages seen
 	reported bool // the receiver (or the protocol partner on its behalf) reported failure
-	applied  bool // the corruption of the case was applied
+	applied  bool // the corruption of the transfer was applied
 	dones    []int64
 	errs     []string
 }
@@ -94,6 +115,96 @@ func (o *obs) report(what string) {
 	o.reported = true
 	o.errs = append(o.errs, what)
 	o.mu.Unlock()
+}
+
+// session tracks which transfer is current: owner module i is first called only after owner module
+// i-1 completed (one module per TO2.OwnerServiceInfo), and everything it produced reaches the device
+// before the next owner module is asked.
+type session struct {
+	rec     *recorder
+	c       Case
+	xs      []*obs
+	mu      sync.Mutex
+	cur     int // 1-based, 0 = none started
+	destDir string
+	tmpDir  string
+	cancel  context.CancelFunc
+}
+
+func (s *session) current() *obs {
+	s.mu.Lock()
+	defer s.mu.Unlock()
+	if s.cur == 0 {
+		return nil
+	}
+	return s.xs[s.cur-1]
+}
+
+// begin is called by owner module i whenever the library calls it.
+func (s *session) begin(i int, announce func()) {
+	s.mu.Lock()
+	if i <= s.cur {
+		s.mu.Unlock()
+		return
+	}
+	prev := s.cur
+	s.cur = i
+	s.mu.Unlock()
+	if prev > 0 {
+		s.xend(prev, false, false, false)
+	}
+	o := s.xs[i-1]
+	s.rec.add("xfer", "i", i, "len", o.x.Size, "cor", o.x.Cor, "srv", o.x.Srv, "chunk", o.x.Chunk, "class", o.x.Class, "expect", o.x.Expect)
+	if announce != nil {
+		announce()
+	}
+	if o.x.MayStall && s.cancel != nil {
+		ms := s.c.StallMs
+		if ms <= 0 {
+			ms = 4000
+		}
+		time.AfterFunc(time.Duration(ms)*time.Millisecond, s.cancel)
+	}
+}
+
+func listDir(dir string) []string {
+	es, _ := os.ReadDir(dir)
+	out := []string{}
+	for _, e := range es {
+		out = append(out, e.Name())
+	}
+	sort.Strings(out)
+	return out
+}
+
+// fileState: absent | same | other, for the file of transfer o at the destination.
+func (s *session) fileState(o *obs) string {
+	b, err := os.ReadFile(filepath.Join(s.destDir, o.name))
+	switch {
+	case errors.Is(err, os.ErrNotExist):
+		return "absent"
+	case err != nil:
+		return "other"
+	case bytes.Equal(b, o.src):
+		return "same"
+	}
+	return "other" // wrong bytes or partial content
+}
+
+// xend records what transfer i left behind, seen when the next transfer begins or when the session is over.
+func (s *session) xend(i int, last, to2err, stalled bool) {
+	o := s.xs[i-1]
+	o.mu.Lock()
+	reported, dones, errs := o.reported, append([]int64{}, o.dones...), append([]string{}, o.errs...)
+	applied := o.applied || o.x.Cor == "none"
+	o.mu.Unlock()
+	for k := range errs {
+		if len(errs[k]) > 200 {
+			errs[k] = errs[k][:200]
+		}
+	}
+	s.rec.add("xend", "i", i, "dest", s.fileState(o), "reported", reported, "to2_err", to2err, "stalled", stalled, "last", last,
+		"tmp_left", len(listDir(s.tmpDir)), "dones", dones, "errs", errs, "cor_applied", applied)
 }
 
 // bstrPayload returns the payload of a sequence of complete CBOR byte strings, or ok=false.
@@ -112,39 +223,39 @@ func bstrPayload(b []byte) (payload []byte, ok bool) {
 	}
 }
 
-// mutate applies the case's corruption to a message on its way to the receiving module and logs what
+// mutate applies the transfer's corruption to a message on its way to the receiving module and logs what
 // the receiver is told / given.
 func (o *obs) mutate(name string, b []byte) []byte {
-	c := o.c
+	x := o.x
 	switch name {
 	case "length":
 		var n int64
 		if err := cbor.Unmarshal(b, &n); err != nil {
 			return b
 		}
-		switch c.Cor {
+		switch x.Cor {
 		case "len+":
-			n += int64(c.Delta)
+			n += int64(x.Delta)
 			o.setApplied()
 		case "len-":
-			n -= int64(c.Delta)
+			n -= int64(x.Delta)
 			if n < 0 {
 				n = 0
 			}
 			o.setApplied()
 		}
 		out, _ := cbor.Marshal(n)
-		o.rec.add("announce_len", "len", n)
+		o.rec.add("announce_len", "i", o.i, "len", n)
 		return out
 	case "sha-384":
 		out := append([]byte(nil), b...)
-		if c.Cor == "digest" && len(out) > 2 {
-			out[len(out)-1-int(c.Seed%40)] ^= 0x20
+		if x.Cor == "digest" && len(out) > 2 {
+			out[len(out)-1-int(x.Seed%40)] ^= 0x20
 			o.setApplied()
 		}
 		var sum []byte
 		_ = cbor.Unmarshal(out, &sum)
-		o.rec.add("announce_dig", "digok", bytes.Equal(sum, o.srcSum))
+		o.rec.add("announce_dig", "i", o.i, "digok", bytes.Equal(sum, o.srcSum))
 		return out
 	case "data":
 		out := append([]byte(nil), b...)
@@ -153,9 +264,9 @@ func (o *obs) mutate(name string, b []byte) []byte {
 		o.dataMsgs++
 		off := o.rcvOff
 		o.mu.Unlock()
-		if c.Cor == "data" && idx == c.CorIdx && len(out) >= 2 {
+		if x.Cor == "data" && idx == x.CorIdx && len(out) >= 2 {
 			// a payload byte (the CBOR header of the byte string is at most 3 bytes)
-			out[len(out)-1-int(c.Seed%int64(max(1, len(out)-3)))] ^= 0x01
+			out[len(out)-1-int(x.Seed%int64(max(1, len(out)-3)))] ^= 0x01
 			o.setApplied()
 		}
 		payload, whole := bstrPayload(out)
@@ -163,16 +274,16 @@ func (o *obs) mutate(name string, b []byte) []byte {
 		o.mu.Lock()
 		o.rcvOff += len(payload)
 		o.mu.Unlock()
-		o.rec.add("data", "n", len(payload), "same", same, "whole", whole)
+		o.rec.add("data", "i", o.i, "n", len(payload), "same", same, "whole", whole)
 		return out
 	}
 	return b
 }
 
-// devWrap sits between the library and a device module (receiver of download and wget).
+// devWrap sits between the library and THE device module of the session (receiver of download and wget).
 type devWrap struct {
 	inner   serviceinfo.DeviceModule
-	o       *obs
+	s       *session
 	mutates bool
 }
 
@@ -183,12 +294,13 @@ func (w *devWrap) Receive(ctx context.Context, name string, body io.Reader, resp
 	if err != nil {
 		return err
 	}
-	if w.mutates {
-		b = w.o.mutate(name, b)
+	o := w.s.current()
+	if w.mutates && o != nil {
+		b = o.mutate(name, b)
 	}
 	err = w.inner.Receive(ctx, name, bytes.NewReader(b), respond, yield)
-	if err != nil {
-		w.o.report("device module error: " + err.Error())
+	if err != nil && o != nil {
+		o.report("device module error: " + err.Error())
 	}
 	return err
 }
@@ -197,14 +309,18 @@ func (w *devWrap) Yield(ctx context.Context, respond func(string) io.Writer, yie
 	return w.inner.Yield(ctx, respond, yield)
 }
 
-// ownWrap sits between the library and an owner module (receiver of upload; observer of done/error).
+// ownWrap sits between the library and the owner module of one transfer (receiver of upload; observer of
+// done/error).
 type ownWrap struct {
-	inner   serviceinfo.OwnerModule
-	o       *obs
-	mutates bool
+	inner    serviceinfo.OwnerModule
+	s        *session
+	o        *obs
+	mutates  bool
+	announce func() // what is known when the transfer begins (wget: what the HTTP server will serve)
 }
 
 func (w *ownWrap) HandleInfo(ctx context.Context, name string, body io.Reader) error {
+	w.s.begin(w.o.i, w.announce)
 	b, err := io.ReadAll(body)
 	if err != nil {
 		return err
@@ -236,6 +352,7 @@ func (w *ownWrap) HandleInfo(ctx context.Context, name string, body io.Reader) e
 }
 
 func (w *ownWrap) ProduceInfo(ctx context.Context, p *serviceinfo.Producer) (bool, bool, error) {
+	w.s.begin(w.o.i, w.announce)
 	block, done, err := w.inner.ProduceInfo(ctx, p)
 	if err != nil {
 		w.o.report("owner module error: " + err.Error())
@@ -243,17 +360,117 @@ func (w *ownWrap) ProduceInfo(ctx context.Context, p *serviceinfo.Producer) (boo
 	return block, done, err
 }
 
-func listDir(dir string) []string {
-	es, _ := os.ReadDir(dir)
-	out := []string{}
-	for _, e := range es {
-		out = append(out, e.Name())
+// served is what the HTTP server sends for one wget transfer.
+type served struct {
+	x    Xfer
+	src  []byte
+	body []byte
+}
+
+func (sv *served) header() int {
+	switch sv.x.Srv {
+	case "cl", "redirect", "":
+		return len(sv.body)
+	case "clsrc":
+		return len(sv.src)
 	}
-	sort.Strings(out)
+	return -1
+}
+
+// pieces: how the body is written, never straddling the end of the source.
+func (sv *served) pieces() [][]byte {
+	var cuts []int
+	if sv.x.Srv == "flushed" && sv.x.Piece > 0 {
+		for p := sv.x.Piece; p < len(sv.body); p += sv.x.Piece {
+			cuts = append(cuts, p)
+		}
+	}
+	if len(sv.src) < len(sv.body) {
+		cuts = append(cuts, len(sv.src))
+	}
+	sort.Ints(cuts)
+	var out [][]byte
+	prev := 0
+	for _, c := range append(cuts, len(sv.body)) {
+		if c > prev {
+			out = append(out, sv.body[prev:c])
+			prev = c
+		}
+	}
 	return out
 }
 
-// Run executes one case.
+// writeHTTP serves with net/http: cl, nocl (chunked), flushed (chunked, piece by piece).
+func (sv *served) writeHTTP(w http.ResponseWriter) {
+	w.Header().Set("Content-Type", "application/octet-stream")
+	switch sv.x.Srv {
+	case "nocl":
+		w.(http.Flusher).Flush() // the header leaves without a Content-Length: chunked transfer encoding
+		_, _ = w.Write(sv.body)
+	case "flushed":
+		w.(http.Flusher).Flush()
+		for _, p := range sv.pieces() {
+			_, _ = w.Write(p)
+			w.(http.Flusher).Flush()
+		}
+	default:
+		w.Header().Set("Content-Length", strconv.Itoa(len(sv.body)))
+		_, _ = w.Write(sv.body)
+	}
+}
+
+// rawServer answers GET /f<i> with a hand-written response: "close" = HTTP/1.0 without Content-Length, the
+// body ends with the connection; "clsrc" = Content-Length of the source file, body as served.
+func rawServer(files map[string]*served) (addr string, stop func(), err error) {
+	ln, err := net.Listen("tcp", "127.0.0.1:0")
+	if err != nil {
+		return "", nil, err
+	}
+	var wg sync.WaitGroup
+	go func() {
+		for {
+			conn, err := ln.Accept()
+			if err != nil {
+				return
+			}
+			wg.Add(1)
+			go func() {
+				defer wg.Done()
+				defer conn.Close()
+				_ = conn.SetDeadline(time.Now().Add(10 * time.Second))
+				br := bufio.NewReader(conn)
+				line, err := br.ReadString('\n')
+				if err != nil {
+					return
+				}
+				for {
+					h, err := br.ReadString('\n')
+					if err != nil || h == "\r\n" || h == "\n" {
+						break
+					}
+				}
+				parts := strings.Fields(line)
+				if len(parts) < 2 {
+					return
+				}
+				sv := files[parts[1]]
+				if sv == nil {
+					_, _ = io.WriteString(conn, "HTTP/1.0 404 Not Found\r\nContent-Length: 0\r\n\r\n")
+					return
+				}
+				if sv.x.Srv == "clsrc" {
+					_, _ = fmt.Fprintf(conn, "HTTP/1.1 200 OK\r\nContent-Type: application/octet-stream\r\nContent-Length: %d\r\nConnection: close\r\n\r\n", len(sv.src))
+				} else {
+					_, _ = io.WriteString(conn, "HTTP/1.0 200 OK\r\nContent-Type: application/octet-stream\r\n\r\n")
+				}
+				_, _ = conn.Write(sv.body)
+			}()
+		}
+	}()
+	return ln.Addr().String(), func() { _ = ln.Close(); wg.Wait() }, nil
+}
+
+// Run executes one session.
 func Run(c Case, run int) (evs []map[string]any) {
 	rec := &recorder{run: run}
 	defer func() {
@@ -263,11 +480,6 @@ func Run(c Case, run int) (evs []map[string]any) {
 		evs = rec.evs
 	}()
 	t0 := time.Now()
-	rng := mrand.New(mrand.NewSource(c.Seed))
-	src := make([]byte, c.Size)
-	_, _ = rng.Read(src)
-	sum := sha512.Sum384(src)
-	o := &obs{rec: rec, c: c, src: src, srcSum: sum[:]}
 	root, err := os.MkdirTemp(world.ScratchRoot(), fmt.Sprintf("fsimx-%d-", c.ID))
 	if err != nil {
 		rec.add("harness_err", "what", err.Error())
@@ -283,58 +495,115 @@ func Run(c Case, run int) (evs []map[string]any) {
 	}
 	toDev := func(name string) string { return filepath.Join(devDir, filepath.Base(name)) }
 
-	rec.add("start", "id", c.ID, "mod", c.Module, "len", c.Size, "cor", c.Cor, "floor", c.Floor, "class", c.Class,
-		"expect", c.Expect, "dev_mtu", int(c.DevMTU), "own_mtu", int(c.OwnMTU), "chunk", c.Chunk)
+	rec.add("start", "id", c.ID, "mod", c.Module, "must", c.Must, "nx", len(c.Xfers), "floor", c.Floor,
+		"dev_mtu", int(c.DevMTU), "own_mtu", int(c.OwnMTU))
+	if len(c.Xfers) == 0 {
+		rec.add("harness_err", "what", "session without transfers")
+		return
+	}
 
-	var ownerMod serviceinfo.OwnerModule
+	s := &session{rec: rec, c: c, tmpDir: tmpDir}
+	for i, x := range c.Xfers {
+		rng := mrand.New(mrand.NewSource(x.Seed))
+		src := make([]byte, x.Size)
+		_, _ = rng.Read(src)
+		sum := sha512.Sum384(src)
+		s.xs = append(s.xs, &obs{rec: rec, i: i + 1, x: x, name: fmt.Sprintf("f%d.bin", i+1), src: src, srcSum: sum[:]})
+	}
+
+	var owners []world.NamedOwnerModule
 	var devMod serviceinfo.DeviceModule
-	var modName, destDir, destName string
+	var modName string
 	var errLog bytes.Buffer
 	switch c.Module {
 	case "download":
-		modName, destDir, destName = "fdo.download", devDir, "dl.bin"
-		ownerMod = &ownWrap{o: o, inner: &fsim.DownloadContents[*bytes.Reader]{
-			Name: destName, Contents: bytes.NewReader(src), MustDownload: c.Must, ChunkSize: c.Chunk}}
-		devMod = &devWrap{o: o, mutates: true, inner: &fsim.Download{
+		modName, s.destDir = "fdo.download", devDir
+		for _, o := range s.xs {
+			owners = append(owners, world.NamedOwnerModule{Name: modName, Mod: &ownWrap{s: s, o: o, inner: &fsim.DownloadContents[*bytes.Reader]{
+				Name: o.name, Contents: bytes.NewReader(o.src), MustDownload: c.Must, ChunkSize: o.x.Chunk}}})
+		}
+		devMod = &devWrap{s: s, mutates: true, inner: &fsim.Download{
 			CreateTemp: mkTemp("fdo.download_*"), NameToPath: toDev, ErrorLog: &errLog}}
 	case "upload":
-		modName, destDir, destName = "fdo.upload", ownDir, "up.bin"
-		if err := os.WriteFile(filepath.Join(devDir, destName), src, 0o644); err != nil {
+		modName, s.destDir = "fdo.upload", ownDir
+		for _, o := range s.xs {
+			if err := os.WriteFile(filepath.Join(devDir, o.name), o.src, 0o644); err != nil {
+				rec.add("harness_err", "what", err.Error())
+				return
+			}
+			owners = append(owners, world.NamedOwnerModule{Name: modName, Mod: &ownWrap{s: s, o: o, mutates: true, inner: &fsim.UploadRequest{
+				Dir: ownDir, Name: o.name, CreateTemp: mkTemp("fdo.upload_*")}}})
+		}
+		devMod = &devWrap{s: s, inner: &fsim.Upload{FS: os.DirFS(devDir)}}
+	case "wget":
+		modName, s.destDir = "fdo.wget", devDir
+		files := map[string]*served{}
+		for _, o := range s.xs {
+			x := o.x
+			body := append([]byte(nil), o.src...)
+			rng := mrand.New(mrand.NewSource(x.Seed ^ 0x5eed))
+			switch x.Cor {
+			case "data":
+				body[int(x.Seed%int64(len(body)))] ^= 0x04
+			case "len-":
+				body = body[:max(0, len(body)-x.Delta)]
+			case "len+":
+				extra := make([]byte, x.Delta)
+				_, _ = rng.Read(extra)
+				body = append(body, extra...)
+			}
+			if x.Cor == "data" || x.Cor == "len-" || x.Cor == "len+" {
+				o.applied = true
+			}
+			files[fmt.Sprintf("/f%d", o.i)] = &served{x: x, src: o.src, body: body}
+		}
+		srv := httptest.NewServer(http.HandlerFunc(func(w http.ResponseWriter, r *http.Request) {
+			p := r.URL.Path
+			if sv := files[p]; sv != nil && sv.x.Srv == "redirect" {
+				http.Redirect(w, r, "/r"+p[2:], http.StatusFound)
+				return
+			}
+			if strings.HasPrefix(p, "/r") {
+				p = "/f" + p[2:]
+			}
+			sv := files[p]
+			if sv == nil {
+				http.NotFound(w, r)
+				return
+			}
+			sv.writeHTTP(w)
+		}))
+		defer srv.Close()
+		rawAddr, stopRaw, err := rawServer(files)
+		if err != nil {
 			rec.add("harness_err", "what", err.Error())
 			return
 		}
-		ownerMod = &ownWrap{o: o, mutates: true, inner: &fsim.UploadRequest{
-			Dir: ownDir, Name: destName, CreateTemp: mkTemp("fdo.upload_*")}}
-		devMod = &devWrap{o: o, inner: &fsim.Upload{FS: os.DirFS(devDir)}}
-	case "wget":
-		modName, destDir, destName = "fdo.wget", devDir, "wg.bin"
-		served := append([]byte(nil), src...)
-		if c.Cor == "data" || c.Cor == "len-" || c.Cor == "len+" {
-			o.applied = true
+		defer stopRaw()
+		for _, o := range s.xs {
+			o := o
+			sv := files[fmt.Sprintf("/f%d", o.i)]
+			base := srv.URL
+			if o.x.Srv == "close" || o.x.Srv == "clsrc" {
+				base = "http://" + rawAddr
+			}
+			u, _ := url.Parse(fmt.Sprintf("%s/f%d", base, o.i))
+			// what the device will be offered: the length the owner expects, the response header and the body
+			announce := func() {
+				rec.add("announce_len", "i", o.i, "len", int64(len(o.src)))
+				rec.add("http_len", "i", o.i, "len", sv.header())
+				off := 0
+				for _, p := range sv.pieces() {
+					same := off+len(p) <= len(o.src) && bytes.Equal(p, o.src[off:off+len(p)])
+					rec.add("data", "i", o.i, "n", len(p), "same", same, "whole", true)
+					off += len(p)
+				}
+			}
+			owners = append(owners, world.NamedOwnerModule{Name: modName, Mod: &ownWrap{s: s, o: o, announce: announce, inner: &fsim.WgetCommand{
+				Name: o.name, URL: u, Length: int64(len(o.src)), Checksum: o.srcSum}}})
 		}
-		switch c.Cor {
-		case "data":
-			served[int(c.Seed%int64(len(served)))] ^= 0x04
-		case "len-":
-			served = served[:max(0, len(served)-c.Delta)]
-		case "len+":
-			extra := make([]byte, c.Delta)
-			_, _ = rng.Read(extra)
-			served = append(served, extra...)
-		}
-		srv := httptest.NewServer(http.HandlerFunc(func(w http.ResponseWriter, _ *http.Request) {
-			w.Header().Set("Content-Length", fmt.Sprint(len(served)))
-			_, _ = w.Write(served)
-		}))
-		defer srv.Close()
-		u, _ := url.Parse(srv.URL + "/f")
-		// what the device will fetch: the "data" of this transfer
-		o.rec.add("announce_len", "len", int64(len(src)))
-		same := bytes.Equal(served, src)
-		o.rec.add("data", "n", len(served), "same", same || (len(served) <= len(src) && bytes.Equal(served, src[:len(served)])), "whole", true)
-		ownerMod = &ownWrap{o: o, inner: &fsim.WgetCommand{Name: destName, URL: u, Length: int64(len(src)), Checksum: sum[:]}}
-		devMod = &devWrap{o: o, mutates: true, inner: &fsim.Wget{
-			CreateTemp: mkTemp("fdo.wget_*"), NameToPath: toDev, Timeout: 5 * time.Second}}
+		devMod = &devWrap{s: s, mutates: true, inner: &fsim.Wget{
+			CreateTemp: mkTemp("fdo.wget_*"), NameToPath: toDev, Timeout: 15 * time.Second}}
 	default:
 		rec.add("harness_err", "what", "unknown module "+c.Module)
 		return
@@ -343,7 +612,7 @@ func Run(c Case, run int) (evs []map[string]any) {
 	w := world.New(world.Options{
 		MaxDeviceServiceInfoSize: c.OwnMTU,
 		OwnerModules: func(context.Context, string, serviceinfo.Devmod, []string) []world.NamedOwnerModule {
-			return []world.NamedOwnerModule{{Name: modName, Mod: ownerMod}}
+			return owners
 		},
 	})
 	defer w.Close()
@@ -356,10 +625,11 @@ func Run(c Case, run int) (evs []map[string]any) {
 	}
 	to := time.Duration(c.Timeout) * time.Millisecond
 	if to <= 0 {
-		to = 20 * time.Second
+		to = 45 * time.Second
 	}
 	tctx, cancel := context.WithTimeout(ctx, to)
 	defer cancel()
+	s.cancel = cancel
 	tr, _ := world.Transport(w.OwnerHandler, nil)
 	tr.MaxContentLength = 1 << 20
 	_, err = w.RunTO2On(tctx, tr, dev, nil, world.TO2Opts{
@@ -371,23 +641,31 @@ func Run(c Case, run int) (evs []map[string]any) {
 		time.Sleep(20 * time.Millisecond)
 	}
 
-	dest := "absent"
-	names := listDir(destDir)
-	if c.Module == "upload" {
-		// the source lives in devDir; the destination directory is the owner's
-		names = listDir(ownDir)
+	s.mu.Lock()
+	started := s.cur
+	s.mu.Unlock()
+	if started > 0 {
+		// the result of TO2 is the result of the transfer that was running when it ended
+		s.xend(started, true, err != nil, stalled)
 	}
+	// the destination at the end of the session: every file of the session that is there, intact or not,
+	// and anything else
+	names := listDir(s.destDir)
+	intact, damaged, stray := []int{}, []int{}, []string{}
 	for _, n := range names {
-		b, rerr := os.ReadFile(filepath.Join(destDir, n))
-		switch {
-		case rerr != nil:
-			dest = "other"
-		case n == destName && bytes.Equal(b, src):
-			if dest == "absent" {
-				dest = "same"
+		var o *obs
+		for _, c := range s.xs {
+			if c.name == n {
+				o = c
 			}
+		}
+		switch {
+		case o == nil:
+			stray = append(stray, n)
+		case s.fileState(o) == "same":
+			intact = append(intact, o.i)
 		default:
-			dest = "other" // wrong name, wrong bytes or partial content
+			damaged = append(damaged, o.i)
 		}
 	}
 	msg := ""
@@ -397,17 +675,9 @@ func Run(c Case, run int) (evs []map[string]any) {
 			msg = msg[len(msg)-300:]
 		}
 	}
-	o.mu.Lock()
-	reported, dones, errs := o.reported, append([]int64{}, o.dones...), append([]string{}, o.errs...)
-	applied := o.applied || c.Cor == "none"
-	o.mu.Unlock()
-	for i := range errs {
-		if len(errs[i]) > 200 {
-			errs[i] = errs[i][:200]
-		}
-	}
-	rec.add("end", "dest", dest, "names", names, "reported", reported, "to2_err", err != nil, "stalled", stalled,
-		"dones", dones, "errs", errs, "msg", msg, "tmp_left", len(listDir(tmpDir)), "errlog", errLog.Len() > 0, "cor_applied", applied, "ms", time.Since(t0).Milliseconds())
+	rec.add("end", "started", started, "names", names, "intact", intact, "damaged", damaged, "stray", stray,
+		"to2_err", err != nil, "stalled", stalled, "msg", msg, "tmp_left", len(listDir(tmpDir)), "errlog", errLog.Len() > 0,
+		"ms", time.Since(t0).Milliseconds())
 	return
 }
 
